@@ -304,9 +304,64 @@ def r5(ctx):
     ctx.floor(rule, n, "C11.R5.writers")
 
 
+def mentions_param(ex, name):
+    return any(e[0] == "param" and e[2] == name for e in X.walk(ex))
+
+
+def r6(ctx):
+    rule = "C11.R6"
+    ctx.rule(rule, "clear before merge: a store `dst[i] = dst[i] | x` in the bit-copy routines whose `x` carries source data must take "
+                   "`dst[i]` through a mask (`dst[i] & m`) first - OR-ing source bits onto whatever the destination holds leaves old "
+                   "1-bits inside the copied range (single-bit `1 << k` set / `& !(1 << k)` reset pairs are exempt); a shifted partial source byte is never stored over a whole "
+                   "destination byte")
+    P = ctx.program()
+    n = 0
+    for nm in ("bit_string_copy", "bit_string_copy_bulked"):
+        bs = [b for b in P.find("asn1rs", "slice::" + nm) if b.def_kind == "Fn"]
+        if len(bs) != 1:
+            ctx.fail(rule, "anchor-lost:" + nm, "matched %d bodies" % len(bs))
+            continue
+        b = bs[0]
+        O = X.Origins(b, P)
+        k = 0
+        for bb, j, st in b.all_statements():
+            if st["k"] != "assign" or not st["pl"]["p"] or not any(p["k"] in ("index", "cindex") for p in st["pl"]["p"]):
+                continue
+            base = O.local(st["pl"]["l"], bb, j)
+            if not mentions_param(base, "dst"):
+                continue
+            rv = st["rv"]
+            n += 1
+            k += 1
+            key = "%s#store%d" % (nm, k)
+            ex = O.rvalue(rv, bb, j, 0)
+            detail = {"function": b.path, "at": span_loc(st["sp"]), "value": X.render(ex)[:200]}
+            e = F.strip_casts(ex)
+            if e[0] == "bin" and X.norm_op(e[1]) == "BitOr":
+                l, r = F.strip_casts(e[2]), F.strip_casts(e[3])
+                bad = None
+                for mine, other in ((l, r), (r, l)):
+                    raw_dst = mine[0] == "index" and mentions_param(mine, "dst")
+                    if raw_dst and mentions_param(other, "src"):
+                        bad = other
+                if bad is not None:
+                    ctx.fail(rule, key, "source bits (`%s`) are OR-ed onto the unmasked destination byte: 1-bits already stored in the "
+                                        "copied range survive the copy" % X.render(bad)[:70], span_loc(st["sp"]), detail)
+                    continue
+            # a partial byte (shifted source data) stored without merging the destination byte wipes the bits next to it
+            shifted = any(x[0] == "bin" and X.norm_op(x[1]) in ("Shl", "Shr") for x in X.walk(e))
+            if mentions_param(e, "src") and shifted and not mentions_param(e, "dst"):
+                ctx.fail(rule, key, "a shifted (partial) source byte is stored over the whole destination byte: the destination bits "
+                                    "outside the copied range are zeroed", span_loc(st["sp"]), detail)
+                continue
+            ctx.ok(rule, key, detail)
+    ctx.floor(rule, n, "C11.R6.stores")
+
+
 def run(ctx):
     r1(ctx)
     r2(ctx)
     r3(ctx)
     r4(ctx)
     r5(ctx)
+    r6(ctx)
